@@ -44,6 +44,8 @@ class Ctx:
 
     # -- model runs ---------------------------------------------------------------------------------------
     def model(self, module, cfg=None, workers=16, timeout=900, env=None, expect_violation=False, heap='8g'):
+        if self.only is not None:
+            return None          # replay of recorded cases: the model runs are not repeated
         r = tlc.model_check(module, cfg=cfg, workers=workers, timeout=timeout, env=env, heap=heap)
         self.states += r['distinct']
         self.transitions += r['generated']
@@ -58,12 +60,16 @@ class Ctx:
         return r
 
     # -- trace validation ---------------------------------------------------------------------------------
-    def validate(self, module, cases, shards=16, timeout=1200, heap='2g', env=None, count_traces=True):
+    def validate(self, module, cases, shards=16, timeout=1200, heap='2g', env=None, count_traces=True, group=None):
         if self.only is not None:
-            cases = [c for c in cases if c['id'] in self.only or any(str(c['id']).startswith(o) for o in self.only)]
+            if group:
+                keep = {c[group] for c in cases if c['id'] in self.only or any(str(o).startswith(str(c['id'])) for o in self.only)}
+                cases = [c for c in cases if c[group] in keep]
+            else:
+                cases = [c for c in cases if c['id'] in self.only or any(str(o).startswith(str(c['id'])) for o in self.only)]
         for c in cases:
             self.case_index[c['id']] = (module, c)
-        r = tlc.validate_cases(module, cases, shards=shards, timeout=timeout, heap=heap, extra_env=env)
+        r = tlc.validate_cases(module, cases, shards=shards, timeout=timeout, heap=heap, extra_env=env, group=group)
         self.states += r['distinct']
         self.transitions += r['generated']
         self.cases += r['cases']
